@@ -61,3 +61,24 @@ Theorem not_present_default :
 Proof. exact TieNotPresent.not_present_default. Qed.
 Print Assumptions not_present_default.
 
+
+(* ---- JSON documents: the unknown value against the documented interpreter (JsonEval.v) ---- *)
+From Bexpr Require Import Typing Lexical LexEval Json JsonOps JsonEval.
+
+Theorem json_unknown_is_substitution :
+  forall (re : string -> string -> option bool) (u : json) (cfg : config) (e : expr) (root : json),
+  hook cfg = None -> unknown cfg = Some (doc u) -> wf_ast e -> clean (eval re cfg [] e (doc root)) = jeval re (Some u) [] e root.
+Proof. exact JsonEval.json_unknown_is_substitution. Qed.
+Print Assumptions json_unknown_is_substitution.
+
+Theorem json_unknown_example :
+  let root := JObj [("a", JObj [("b", JNum 0)])] in
+  let sel := fun p : list string => {| stype := SelBexpr; spath := p |} in
+  jeval (fun _ _ : string => None) (Some (JStr "x")) [] (EMatch (sel ["a"; "zz"]) OpEq (Some "x")) root = Some true /\
+  jeval (fun _ _ : string => None) (Some (JStr "x")) [] (EMatch (sel ["zz"]) OpEq (Some "x")) root = Some true /\
+  jeval (fun _ _ : string => None) None [] (EMatch (sel ["zz"]) OpEq (Some "x")) root = None /\
+  jeval (fun _ _ : string => None) None [] (EMatch (sel ["a"; "zz"]) OpEq (Some "x")) root = Some false /\
+  jeval (fun _ _ : string => None) (Some JNull) [] (EMatch (sel ["a"; "zz"]) OpEq (Some "x")) root = None.
+Proof. exact JsonEval.json_unknown_example. Qed.
+Print Assumptions json_unknown_example.
+
